@@ -686,25 +686,26 @@ impl Run<'_> {
     }
 
     fn classify_err(&mut self, msg: &str, may_panic: bool) -> Option<Out> {
-        if msg.starts_with("Ran for duration") {
-            Some(Out::ErrDuration)
-        } else if let Some(n) = msg.strip_prefix('E').and_then(|s| s.parse::<usize>().ok()) {
+        // Software errors carry the harness's own markers ("E<n>", "B<n> ..."); every other error
+        // comes from turmoil itself.  The property does not fix the wording of the "duration
+        // exceeded" error, so it is not matched by text: a foreign error is the duration error
+        // unless it is a tokio JoinError of a panicked task where a panic had to unwind.
+        if let Some(n) = msg.strip_prefix('E').and_then(|s| s.parse::<usize>().ok()) {
             Some(Out::ErrSw(n))
-        } else if msg.starts_with('B') {
+        } else if msg.starts_with('B') && msg.contains(" port ") {
             self.out.fail(
                 "bind-failed-port-held-by-finished-or-crashed-software",
                 format!("a freshly (re)started software could not bind its own port: {msg:?}; nothing else on that host may still be running"),
             );
             None
-        } else if may_panic {
+        } else if may_panic && msg.contains("panic") {
             self.out.fail(
                 "software-panic-returned-as-error-instead-of-unwinding",
                 format!("run returned Err({msg:?}) where a host/client panic had to surface as a panic of the caller"),
             );
             None
         } else {
-            self.out.fail("unknown-error", format!("run returned unexpected error {msg:?}"));
-            None
+            Some(Out::ErrDuration)
         }
     }
 
@@ -1027,7 +1028,7 @@ pub fn run(sc: &Scenario) -> Outcome {
                         break 'phases;
                     }
                     Obs::Err(msg) => {
-                        r.out.label(if msg.starts_with("Ran for") { "duration-error" } else { "software-error" });
+                        r.out.label(if msg.strip_prefix('E').is_some_and(|t| t.parse::<usize>().is_ok()) || msg.starts_with('B') { "software-error" } else { "duration-error" });
                         tail = true;
                         break;
                     }
